@@ -1,5 +1,6 @@
 #!/bin/bash
 # refactor_test.sh <patch.diff> [props...]: a behaviour-preserving change must not make any check raise an alarm.
+"$(dirname "$0")"/trimcache.sh
 patch=$(readlink -f "$1"); shift
 props=${*:-"C02 C03 C04 C05 C06 C07 C08 C09 C10 C11 C16 C17 C19 C20"}
 wt=$(mktemp -d /tmp/rf-XXXXXX); rmdir "$wt"
